@@ -13,10 +13,13 @@ def replicate(src, k=K, where="module"):
     head, body = gen.split_head(src)
     if not body.strip(): return None
     if not body.endswith("\n"): body += "\n"
+    if where == "paren":
+        body = gen.paren_multiline(body)
+        if body is None: return None
     out = head; ranges = []; line = head.count("\n")
     for i in range(k):
         out += S.BEGIN(i); line += 1
-        if where == "module": wrapped = body; skip = 0
+        if where in ("module", "paren"): wrapped = body; skip = 0
         elif where == "def": wrapped = f"def vf_site_fn_{i}(vf_p=None):\n" + textwrap.indent(body, "    "); skip = 1
         elif where == "method": wrapped = f"class VfSite{i}:\n    def meth(self):\n" + textwrap.indent(body, "        "); skip = 2
         else: wrapped = f"if VF_FLAG_{i}:\n" + textwrap.indent(body, "    "); skip = 1
@@ -42,9 +45,9 @@ def plan(tier, seed):
         rs = sorted(rs, key=lambda r: (len(r["input"]), r["input"]))
         sg = corpus.is_semgrep_detected(cid)      # each of their runs costs a semgrep invocation: the quick tier gives them one seed in one rotating form
         for ri, r in enumerate(rs[: ((1 if tier == "quick" else 2) if sg else per)]):
-          forms = ("module", "def", "method", "if-block")
+          forms = ("module", "def", "method", "if-block", "paren")      # paren: the site inside parentheses that open and close on other lines (the construct is still one line)
           # semgrep-detected codemods: one seed in one rotating form (quick), two seeds in two rotating forms (thorough); the others: every form in the thorough tier
-          for where in (((forms[(len(disc) + seed) % 4],) if sg else ("module", forms[1 + ri % 3])) if tier == "quick" else ((forms[(ri + seed) % 4], forms[(ri + seed + 2) % 4]) if sg else forms)):
+          for where in (((forms[(len(disc) + seed) % 5],) if sg else ("module", forms[1 + (ri + seed) % 4], "paren")) if tier == "quick" else ((forms[(ri + seed) % 5], forms[(ri + seed + 2) % 5]) if sg else forms)):
             rep = replicate(r["input"], where=where)
             if rep is None: continue
             src, ranges = rep
@@ -65,7 +68,13 @@ def plan(tier, seed):
         sites, n_outside = S.single_line_replacements(j["src"], after, j["ranges"])
         if any(x is None for x in sites): SKIPPED["edit-not-confined-to-one-line"] += 1; continue   # insertions, removals, 1->n replacements: outside the quantifier
         hdr = [S.header_range(j["src"], ln) for ln in sites]
-        if any(h is None or h[0] != h[1] for h in hdr): SKIPPED["multi-line-construct"] += 1; continue   # labelled, unjudged class (the quantifier speaks of single-line sites)
+        L_ = j["src"].splitlines()
+        def one_line_site(h, ln):
+            if h is None: return False
+            if h[0] == h[1]: return True
+            # the construct alone on the middle line of `x = (` / `)`: still a single-line candidate site
+            return h[1] - h[0] == 2 and ln == h[0] + 1 and L_[h[0] - 1].rstrip().endswith("(") and L_[h[1] - 1].strip() == ")"
+        if not all(one_line_site(h, ln) for h, ln in zip(hdr, sites)): SKIPPED["multi-line-construct"] += 1; continue   # labelled, unjudged class (the quantifier speaks of single-line sites)
         outside = [1] * n_outside
         # single-line in-place sites only (imports added elsewhere are fine)
         report_lines = sorted({c["lineNumber"] for rr in run["report"]["results"] for cs in rr["changeset"] for c in cs["changes"]})
